@@ -6,4 +6,5 @@ export CARGO_NET_OFFLINE=true
 mkdir -p build evidence replays
 (cd coq && ./build_model.sh -k)
 (cd harness && RUSTFLAGS="--cfg foca_verif" CARGO_TARGET_DIR=../build/target cargo build --offline)
+(cd harness && RUSTFLAGS="--cfg foca_verif" CARGO_TARGET_DIR=../build/target cargo build --release --offline)
 echo setup done
